@@ -20,6 +20,11 @@
 //! LiveEvents is single-pass and does not support rewinding. Aliases expand by
 //! injecting previously recorded buffers; normal parsing continues after the
 //! injection is exhausted.
+//!
+//! Recording: while at least one anchored container is open, every event is appended
+//! once to a single shared buffer (`rec_buf`). An open anchored container only remembers
+//! where it starts in that buffer, and a finished one is a range of it. Nested anchors
+//! therefore cost one copy of the recorded events in total, not one copy per nesting level.
 
 use crate::budget::{BudgetEnforcer, EnforcingPolicy};
 use crate::buffered_input::{ChunkedChars, EofSafeInput, buffered_input_from_reader_with_limit};
@@ -29,7 +34,6 @@ use crate::location::location_from_span;
 use crate::options::BudgetReportCallback;
 use crate::tags::SfTag;
 use saphyr_parser::{Event, Parser, ScalarStyle, ScanError, Span, StrInput};
-use smallvec::SmallVec;
 use std::borrow::Cow;
 use std::cell::RefCell;
 use std::rc::Rc;
@@ -42,18 +46,35 @@ type StreamInput<'a> = EofSafeInput<ChunkedChars<StreamBufReader<'a>>>;
 // This is fine for our reader-based mode since we never borrow from the original input string.
 type StreamParser<'a> = Parser<'static, StreamInput<'a>>;
 
-/// This is enough to hold a single scalar that is common  case in YAML anchors.
-const SMALLVECT_INLINE: usize = 8;
-
 /// A frame that records events for an anchored container until its end.
-/// Uses SmallVec to avoid heap allocations for small anchors.
-#[derive(Clone, Debug)]
-struct RecFrame<'a> {
+///
+/// The events themselves live in [`LiveEvents::rec_buf`], which all open frames share;
+/// the frame's events are `rec_buf[start..]` (its own start event included).
+#[derive(Clone, Copy, Debug)]
+struct RecFrame {
     id: usize,
     /// counts nested container starts/ends
     depth: usize,
-    /// inline up to SMALLVECT_INLINE events; spills to heap beyond
-    buf: SmallVec<[Ev<'a>; SMALLVECT_INLINE]>,
+    /// index in `rec_buf` of this container's start event
+    start: usize,
+}
+
+/// The recorded events of one anchored node.
+#[derive(Clone, Debug)]
+enum Recorded<'a> {
+    /// A buffer of the anchor's own (anchored scalars: a single event).
+    Own(Box<[Ev<'a>]>),
+    /// The container has ended, but an enclosing anchored container is still being
+    /// recorded: the events are `rec_buf[start..end]`. Becomes `Shared` as soon as the
+    /// outermost recording frame closes.
+    Pending { start: usize, end: usize },
+    /// The events are `buf[start..end]`. Anchors that were recorded together (an anchored
+    /// container and the anchored containers nested in it) share one `buf`.
+    Shared {
+        buf: Rc<Vec<Ev<'a>>>,
+        start: usize,
+        end: usize,
+    },
 }
 
 /// Handle input polymorphism
@@ -92,9 +113,14 @@ pub(crate) struct LiveEvents<'a> {
     /// Recorded buffers for anchors (index = anchor_id).
     /// `None` means the id is not recorded (e.g., never anchored or cleared).
     /// Saphyr's parser anchor_id is the sequential counter.
-    anchors: Vec<Option<Box<[Ev<'a>]>>>,
+    anchors: Vec<Option<Recorded<'a>>>,
     /// Recording frames for currently-open anchored containers.
-    rec_stack: Vec<RecFrame<'a>>,
+    rec_stack: Vec<RecFrame>,
+    /// Events recorded since the outermost open recording frame started. Append-only while
+    /// `rec_stack` is non-empty; handed over to the anchors when the outermost frame closes.
+    rec_buf: Vec<Ev<'a>>,
+    /// Ids of the anchors that are currently `Recorded::Pending` (ranges of `rec_buf`).
+    pending: Vec<usize>,
     /// Budget (raw events); independent of alias replay limits below.
     budget: Option<BudgetEnforcer>,
     /// Optional reporter to expose budget usage once parsing completes.
@@ -180,6 +206,8 @@ impl<'a> LiveEvents<'a> {
             inject: Vec::with_capacity(2),
             anchors: Vec::with_capacity(8),
             rec_stack: Vec::with_capacity(2),
+            rec_buf: Vec::new(),
+            pending: Vec::new(),
             budget: budget.map(|budget| BudgetEnforcer::new(budget, policy).with_alias_replay()),
 
             budget_report,
@@ -228,6 +256,8 @@ impl<'a> LiveEvents<'a> {
             inject: Vec::with_capacity(2),
             anchors: Vec::with_capacity(8),
             rec_stack: Vec::with_capacity(2),
+            rec_buf: Vec::new(),
+            pending: Vec::new(),
             budget: budget.map(|budget| {
                 BudgetEnforcer::new(budget, EnforcingPolicy::AllContent).with_alias_replay()
             }),
@@ -270,18 +300,17 @@ impl<'a> LiveEvents<'a> {
         // with `idx == buf.len()`. Before we consider pulling from the real parser,
         // we must pop any such exhausted frames.
         loop {
-            let Some(frame) = self.inject.last_mut() else {
+            let Some(frame) = self.inject.last() else {
                 break;
             };
-            let anchor_id = frame.anchor_id;
-            let idx = &mut frame.idx;
+            let idx = frame.idx;
+            // Looked up by index on every pump: replayed events are themselves appended to
+            // `rec_buf`, so no slice of it may be held from one pump to the next.
             let buf = self
-                .anchors
-                .get(anchor_id)
-                .and_then(|o| o.as_ref())
+                .recorded(frame.anchor_id)
                 .ok_or_else(|| Error::unknown_anchor().with_location(self.last_location))?;
 
-            if *idx >= buf.len() {
+            if idx >= buf.len() {
                 // Exhausted: pop and continue (there may be another injected frame beneath).
                 self.inject.pop();
                 #[cfg(serde_saphyr_verif)]
@@ -289,8 +318,10 @@ impl<'a> LiveEvents<'a> {
                 continue;
             }
 
-            let ev = buf[*idx].clone();
-            *idx += 1;
+            let ev = buf[idx].clone();
+            if let Some(frame) = self.inject.last_mut() {
+                frame.idx += 1;
+            }
             // Do not pop the injection frame yet. `Spanned<T>` (and other consumers)
             // may query `reference_location()` while deserializing this just-yielded
             // node. We will pop the frame at the top of the next `next_impl()` call
@@ -320,9 +351,7 @@ impl<'a> LiveEvents<'a> {
                 });
             }
             self.observe_budget_for_replay(&ev)?;
-            self.record(
-                &ev, /*is_start*/ false, /*seeded_new_frame*/ false,
-            );
+            self.record(&ev);
             self.last_location = ev.location();
             self.produced_any_in_doc = true;
             #[cfg(serde_saphyr_verif)]
@@ -372,10 +401,12 @@ impl<'a> LiveEvents<'a> {
                         anchor: anchor_id,
                         location,
                     };
-                    self.record(&ev, false, false);
+                    self.record(&ev);
                     if anchor_id != 0 {
+                        // An anchored scalar keeps a one-element buffer of its own.
                         self.ensure_anchor_capacity(anchor_id);
-                        self.anchors[anchor_id] = Some(vec![ev.clone()].into_boxed_slice());
+                        self.anchors[anchor_id] =
+                            Some(Recorded::Own(vec![ev.clone()].into_boxed_slice()));
                     }
                     self.last_location = location;
                     self.produced_any_in_doc = true;
@@ -394,26 +425,16 @@ impl<'a> LiveEvents<'a> {
                     };
                     // Existing frames go deeper with this start.
                     self.bump_depth_on_start();
-                    // Start recording for this anchor *after* bumping other frames,
-                    // and include the start event in the new buffer.
+                    // Start recording for this anchor *after* bumping other frames;
+                    // the start event recorded next is the first event of the new frame.
                     if anchor_id != 0 {
-                        let mut buf: SmallVec<[Ev; SMALLVECT_INLINE]> = SmallVec::new();
-                        buf.push(ev.clone());
                         self.rec_stack.push(RecFrame {
                             id: anchor_id,
                             depth: 1,
-                            buf,
+                            start: self.rec_buf.len(),
                         });
                     }
-
-                    // Correct recording semantics:
-                    // - If we *just* created a new frame for this start, the start was already seeded.
-                    // - For ordinary (non-anchored) starts, record into *all* frames.
-                    self.record(
-                        &ev,
-                        /*is_start*/ true,
-                        /*seeded_new_frame*/ anchor_id != 0,
-                    );
+                    self.record(&ev);
                     self.last_location = location;
                     self.produced_any_in_doc = true;
                     #[cfg(serde_saphyr_verif)]
@@ -422,7 +443,7 @@ impl<'a> LiveEvents<'a> {
                 }
                 Event::SequenceEnd => {
                     let ev = Ev::SeqEnd { location };
-                    self.record(&ev, false, false);
+                    self.record(&ev);
                     self.bump_depth_on_end()
                         .map_err(|err| err.with_location(location))?; // may finalize frames
                     self.last_location = location;
@@ -442,20 +463,13 @@ impl<'a> LiveEvents<'a> {
                     };
                     self.bump_depth_on_start();
                     if anchor_id != 0 {
-                        let mut buf: SmallVec<[Ev; SMALLVECT_INLINE]> = SmallVec::new();
-                        buf.push(ev.clone());
                         self.rec_stack.push(RecFrame {
                             id: anchor_id,
                             depth: 1,
-                            buf,
+                            start: self.rec_buf.len(),
                         });
                     }
-                    // Container-balance: count open containers independent of budgets/anchors.
-                    self.record(
-                        &ev,
-                        /*is_start*/ true,
-                        /*seeded_new_frame*/ anchor_id != 0,
-                    );
+                    self.record(&ev);
                     self.last_location = location;
                     self.produced_any_in_doc = true;
                     #[cfg(serde_saphyr_verif)]
@@ -464,7 +478,7 @@ impl<'a> LiveEvents<'a> {
                 }
                 Event::MappingEnd => {
                     let ev = Ev::MapEnd { location };
-                    self.record(&ev, false, false);
+                    self.record(&ev);
                     self.bump_depth_on_end()
                         .map_err(|err| err.with_location(location))?;
                     self.last_location = location;
@@ -515,7 +529,7 @@ impl<'a> LiveEvents<'a> {
                             };
                             // No replay follows this alias: account for the placeholder node itself.
                             self.observe_budget_for_replay(&ev)?;
-                            self.record(&ev, false, false);
+                            self.record(&ev);
                             self.last_location = location;
                             self.produced_any_in_doc = true;
                             #[cfg(serde_saphyr_verif)]
@@ -526,12 +540,7 @@ impl<'a> LiveEvents<'a> {
                     }
 
                     // Ensure the anchor exists now (fail fast); store only id + idx.
-                    let exists = self
-                        .anchors
-                        .get(anchor_id)
-                        .and_then(|o| o.as_ref())
-                        .is_some();
-                    if !exists {
+                    if self.recorded(anchor_id).is_none() {
                         return Err(Error::unknown_anchor().with_location(location));
                     }
                     self.inject.push(InjectFrame {
@@ -542,7 +551,7 @@ impl<'a> LiveEvents<'a> {
                     #[cfg(serde_saphyr_verif)]
                     crate::verif::emit(crate::verif::VerifEvent::AliasPush {
                         anchor_id,
-                        buf_len: self.anchors[anchor_id].as_ref().map_or(0, |b| b.len()),
+                        buf_len: self.recorded(anchor_id).map_or(0, |b| b.len()),
                         depth: self.inject.len(),
                     });
                     return self.next_impl();
@@ -615,6 +624,43 @@ impl<'a> LiveEvents<'a> {
         }
     }
 
+    /// The recorded events of `anchor_id`, if that anchor has been recorded.
+    ///
+    /// The slice may point into `rec_buf`, which grows while recording is in progress:
+    /// callers take what they need and look the anchor up again next time.
+    fn recorded(&self, anchor_id: usize) -> Option<&[Ev<'a>]> {
+        match self.anchors.get(anchor_id)?.as_ref()? {
+            Recorded::Own(buf) => Some(buf),
+            Recorded::Pending { start, end } => self.rec_buf.get(*start..*end),
+            Recorded::Shared { buf, start, end } => buf.get(*start..*end),
+        }
+    }
+
+    /// Hand the shared recording buffer over to the anchors that are ranges of it.
+    ///
+    /// Called when no recording frame is open any more: the buffer is complete, so it is
+    /// moved (not copied) behind one reference count that all those anchors share.
+    fn seal_recording(&mut self) {
+        if self.pending.is_empty() {
+            self.rec_buf.clear();
+            return;
+        }
+        let mut events = std::mem::take(&mut self.rec_buf);
+        events.shrink_to_fit();
+        let buf = Rc::new(events);
+        for id in self.pending.drain(..) {
+            if let Some(Some(slot)) = self.anchors.get_mut(id)
+                && let Recorded::Pending { start, end } = *slot
+            {
+                *slot = Recorded::Shared {
+                    buf: Rc::clone(&buf),
+                    start,
+                    end,
+                };
+            }
+        }
+    }
+
     /// Reset per-document state when encountering a document boundary.
     ///
     /// Clears injected replay buffers, recorded anchors, current recording frames,
@@ -623,6 +669,10 @@ impl<'a> LiveEvents<'a> {
         // Clear injected replay buffers and recording stack but keep capacity.
         self.inject.clear();
         self.rec_stack.clear();
+        // The shared recording buffer is only non-empty here if the document was abandoned
+        // in the middle of an anchored container: release it rather than keep its capacity.
+        self.rec_buf = Vec::new();
+        self.pending.clear();
 
         // Anchors are per-document. Instead of dropping the whole vec (which frees
         // capacity and may cause re-allocation in the next document), keep the
@@ -667,35 +717,16 @@ impl<'a> LiveEvents<'a> {
             .map_err(|breach| budget_error(breach).with_location(ev.location()))
     }
 
-    /// Record an event into active recording frames.
+    /// Record an event for the active recording frames.
     ///
-    /// # Parameters
-    /// - `ev`: the event to record.
-    /// - `is_start`: whether this is a container start event.
-    /// - `seeded_new_frame`: true **only** when a new frame was just created and already
-    ///   seeded with the same start event (i.e., anchored container start).
-    fn record(&mut self, ev: &Ev<'a>, is_start: bool, seeded_new_frame: bool) {
+    /// All open frames share `rec_buf`, so the event is stored once however many anchored
+    /// containers are open around it. For an anchored container start the new frame must
+    /// already be on `rec_stack`, so that the start event is the first one of its range.
+    fn record(&mut self, ev: &Ev<'a>) {
         if self.rec_stack.is_empty() {
             return;
         }
-        if is_start {
-            if seeded_new_frame {
-                let last = self.rec_stack.len() - 1;
-                for (i, fr) in self.rec_stack.iter_mut().enumerate() {
-                    if i != last {
-                        fr.buf.push(ev.clone());
-                    }
-                }
-            } else {
-                for fr in &mut self.rec_stack {
-                    fr.buf.push(ev.clone());
-                }
-            }
-        } else {
-            for fr in &mut self.rec_stack {
-                fr.buf.push(ev.clone());
-            }
-        }
+        self.rec_buf.push(ev.clone());
     }
 
     /// Increase recording depth for all active anchored frames on a container start.
@@ -706,7 +737,7 @@ impl<'a> LiveEvents<'a> {
     }
 
     /// Decrease recording depth on a container end and finalize any frames
-    /// that reach depth 0 by storing their recorded buffers in `anchors`.
+    /// that reach depth 0 by storing their range of the recording buffer in `anchors`.
     ///
     /// Returns an error if internal depth accounting underflows.
     fn bump_depth_on_end(&mut self) -> Result<(), Error> {
@@ -727,12 +758,20 @@ impl<'a> LiveEvents<'a> {
                     .ok_or(Error::InternalRecursionStackEmpty {
                         location: Location::UNKNOWN,
                     })?;
-                // Convert SmallVec into Box<[Ev]> and store by anchor_id.
+                // The end event has been recorded already: the frame is `rec_buf[start..]`.
                 self.ensure_anchor_capacity(done.id);
-                self.anchors[done.id] = Some(done.buf.into_vec().into_boxed_slice());
+                self.anchors[done.id] = Some(Recorded::Pending {
+                    start: done.start,
+                    end: self.rec_buf.len(),
+                });
+                self.pending.push(done.id);
             } else {
                 break;
             }
+        }
+        // The outermost frame has closed: nothing is appended to this buffer any more.
+        if self.rec_stack.is_empty() && !self.pending.is_empty() {
+            self.seal_recording();
         }
         Ok(())
     }
@@ -867,6 +906,9 @@ impl<'a> LiveEvents<'a> {
         self.look = None;
         self.inject.clear();
         self.rec_stack.clear();
+        // Containers that were still open are never recorded; the ones already finished
+        // inside them stay valid.
+        self.seal_recording();
 
         // Pull raw events from the parser until we see DocumentStart or EOF
         while let Some(item) = self.parser.next() {
